@@ -85,7 +85,7 @@ def with_mol_index(listing, mollist):
     return out
 
 
-class _Timeout(Exception):
+class _Timeout(BaseException):
     pass
 
 
@@ -117,7 +117,7 @@ def _run_one(arg):
     np.random.seed(sd)
     random.seed(sd)
     signal.signal(signal.SIGALRM, _alarm)
-    signal.alarm(170)
+    signal.setitimer(signal.ITIMER_REAL, 170, 5)
     try:
         with tempfile.TemporaryDirectory(prefix="verif_c03_", dir="/var/tmp") as wd:
             wd = Path(wd)
@@ -158,7 +158,7 @@ def _run_one(arg):
     except _Timeout:
         return {"noverdict": "timeout"}
     finally:
-        signal.alarm(0)
+        signal.setitimer(signal.ITIMER_REAL, 0)
 
 
 def compare(case, out):
